@@ -740,16 +740,17 @@ func runC16(a runArgs) error {
 		}
 	}
 	if a.tier == "thorough" {
-		enum(1, 1, []int64{1, 2}, []int64{1, 2}, 1, 0)
-		enum(2, 2, []int64{1, 2, 0}, []int64{1, 2, 3, 0}, 1, 0)
+		enum(1, 1, []int64{1, 2, 0}, []int64{1, 2, 0}, 1, 0)
+		enum(2, 2, []int64{1, 2, 0}, []int64{1, 2, 3, 0}, 2, 0)
 		enum(3, 2, []int64{1, 2, 0}, []int64{1, 2, 3, 0}, 1, 0)
-		enum(4, 2, []int64{1, 2}, []int64{1, 2, 3}, 0, 0)
-		enum(5, 2, []int64{1, 2}, []int64{1, 2, 3}, 0, 400)
+		enum(4, 2, []int64{1, 2}, []int64{1, 2, 3}, 1, 0)
+		enum(5, 2, []int64{1, 2}, []int64{1, 2, 3}, 0, 0)
 	} else {
 		enum(1, 1, []int64{1, 2}, []int64{1, 2}, 1, 0)
 		enum(2, 2, []int64{1, 2, 0}, []int64{1, 2, 0}, 1, 0)
 		enum(3, 2, []int64{1, 2}, []int64{1, 2, 3}, 1, 0)
-		enum(4, 2, []int64{1, 2}, []int64{1, 2, 3}, 0, 60)
+		enum(4, 2, []int64{1, 2}, []int64{1, 2, 3}, 0, 0)
+		enum(5, 2, []int64{1, 2}, []int64{1, 2, 3}, 0, 40)
 	}
 	e.Extra["exhaustive_histories"] = exhaustive
 	e.Extra["exhaustive"] = complete
